@@ -338,3 +338,53 @@ SPECS["C01"] = {
          "limits": {"quick": {"timeout": "900s"}, "thorough": {"timeout": "5400s"}}},
     ],
 }
+
+
+NET_STUBS = ("library leaves of the forwarder/receiver path are contract stubs in the engine: proto.Marshal records the message and returns a handle (it fails iff a string "
+             "reachable from the message is not valid UTF-8, decided by executing the real utf8.ValidString symbolically); proto.Unmarshal copies the recorded message (any "
+             "other body is a decoding error); http.Client.Do calls the harness RoundTripper; zlib/lz4 (de)compression is the identity; timers fire at once; natively the "
+             "same harness runs against the real libraries, so every counterexample is replayed as an integration test")
+
+SPECS["C14"] = {
+    "explanation": "The real forwarder code (postMetrics / DispatchEvent -> dispatchEvent -> post -> constructPost, including the compression switch and header construction) is "
+                   "connected through a harness http.RoundTripper to the real ingestion handlers of pkg/web (MetricHandler / EventHandler -> readBody -> proto.Unmarshal -> "
+                   "translateFromProtobufV2 / the event mapping), which dispatch into a recorder. METRICS: a symbolic map (one series per type with symbolic presence; names, tag, "
+                   "source, set member of symbolic ASCII bytes; any int64 counter, any float64 gauge/timer values and sampled count incl. NaN/Inf/-0, 0..2 timer values, 0..2 "
+                   "set members; compression off/zlib/lz4) must be dispatched by the server exactly once, with the same keys, tags, sources, values (timestamps excepted), status "
+                   "202, and a Content-Encoding header naming the compression. EVENT: all fields symbolic. BAD BODY: unknown encodings and undecodable bodies under every known "
+                   "encoding are answered 4xx/5xx and dispatch nothing.",
+    "bounds": {"quick": "one name, one tag, one source, strings of 1..2 ASCII bytes, <= 2 timer values / set members", "thorough": "same"},
+    "outside": ["the byte-level protobuf wire format and the zlib/lz4 codecs (trusted inverse pairs; compression levels)", "corrupt COMPRESSED bodies (decoder behaviour)", "strings that are not valid UTF-8 (C15)"],
+    "assumptions": STUBS_COMMON + [NET_STUBS, TIME_MODEL],
+    "jobs": [
+        {"pkg": "./pkg/statsd", "harness": "pkg/statsd", "mode": "machine",
+         "entries": {"quick": ["VerifC14_Metrics", "VerifC14_Event", "VerifC14_BadBody", "VerifC14_Twin"]},
+         "reach": {"VerifC14_Metrics": ["decoded"], "VerifC14_Event": ["event-decoded"], "VerifC14_BadBody": ["rejected"]},
+         "twin": {"VerifC14_Twin": True},
+         "limits": {"quick": {"timeout": "600s"}, "thorough": {"timeout": "600s"}}},
+    ],
+}
+
+
+SPECS["C15"] = {
+    "explanation": "RETRY: the real post()/constructPost retry loop (real cenkalti back-off against the symbolic clock, so the retry window is a symbolic decision) runs against a "
+                   "symbolic per-attempt fault script {delivered to the real ingestion handler, connection error, 503}: created = 1; no attempt after a success; the upstream "
+                   "pipeline receives the batch at most once; sent + dropped = 1 with sent iff an attempt succeeded; every attempt but the first is counted as a retry; with "
+                   "retries disabled (-1) exactly one attempt. UTF-8: a merged batch in which one client's tag consists of ARBITRARY bytes still delivers the other "
+                   "client's series (proto.Marshal's UTF-8 precondition is modelled, see stubs). SPLIT: SplitByTags on 1..2 series with symbolic tags (with or without "
+                   "the dynamic-header prefix) puts each series in exactly one map, keyed by its matching tags, and the request built for that map carries the header "
+                   "with the tag's value.",
+    "bounds": {"quick": "<= 5 attempts (unwinding bound: longer scripts are cut by an assumption); invalid-UTF-8 tags of 1..2 arbitrary bytes; 1..2 series with tags of 1..2 bytes, one dynamic header name",
+               "thorough": "same"},
+    "outside": ["concurrent dispatch versus Drain/Fill of the consolidator, the request/merge semaphores under real scheduling, the manual flush coordinator", "http.Client behaviour (timeouts, redirects)",
+                "MergeMaps conservation is C07"],
+    "assumptions": STUBS_COMMON + [NET_STUBS, TIME_MODEL, "strings.ToValidUTF8 on a symbolic string returns the replacement alone (contract: some valid UTF-8 string)"],
+    "jobs": [
+        {"pkg": "./pkg/statsd", "harness": "pkg/statsd", "mode": "machine",
+         "entries": {"quick": ["VerifC15_Retry2", "VerifC15_Retry3", "VerifC15_Retry5", "VerifC15_RetryNone", "VerifC15_Utf8_1", "VerifC15_Utf8_2",
+                               "VerifC15_Split_1_1", "VerifC15_Split_2_1", "VerifC15_Split_2_2", "VerifC15_Twin"]},
+         "reach": {"VerifC15_Retry3": ["dropped", "sent", "retried"], "VerifC15_Utf8_1": ["posted"], "VerifC15_Split_2_1": ["split", "header"]},
+         "twin": {"VerifC15_Twin": True},
+         "limits": {"quick": {"timeout": "600s"}, "thorough": {"timeout": "600s"}}},
+    ],
+}
